@@ -2,10 +2,64 @@
 use std::collections::BTreeMap;
 use std::fs::File;
 use std::io::{BufWriter, Write};
+use std::sync::{Arc, Mutex, OnceLock};
+use std::time::Instant;
 
-pub struct Out {
+/// The two output streams; shared with the watchdog thread so that it can complete and flush them
+/// when a call into the implementation does not return.
+pub struct Streams {
     ops: BufWriter<File>,
     imp: BufWriter<File>,
+    n: u64,
+    dir: String,
+}
+
+static STREAMS: OnceLock<Arc<Mutex<Streams>>> = OnceLock::new();
+/// The op being executed on the real implementation right now, and since when.
+static CURRENT: Mutex<Option<(String, Instant)>> = Mutex::new(None);
+
+/// Mark the start of a call into the implementation (`None` = returned).
+pub fn current_op(op: Option<&str>) {
+    if let Ok(mut c) = CURRENT.lock() {
+        *c = op.map(|o| (o.to_string(), Instant::now()));
+    }
+}
+
+/// Watchdog: when one op has been running for longer than the limit (VERIF_HANG_SECS, default 20),
+/// record it with the answer `hang: ...`, flush what was written so far, write the statistics file
+/// and end the process (the hung thread cannot be stopped otherwise).
+pub fn start_watchdog() {
+    let limit: u64 = std::env::var("VERIF_HANG_SECS").ok().and_then(|s| s.parse().ok()).unwrap_or(20);
+    std::thread::spawn(move || loop {
+        std::thread::sleep(std::time::Duration::from_millis(250));
+        let hung = match CURRENT.lock() {
+            Ok(c) => c.as_ref().filter(|(_, t)| t.elapsed().as_secs() >= limit).map(|(o, _)| o.clone()),
+            Err(_) => None,
+        };
+        if let Some(op) = hung {
+            if let Some(st) = STREAMS.get() {
+                let mut st = match st.lock() {
+                    Ok(g) => g,
+                    Err(p) => p.into_inner(),
+                };
+                let _ = writeln!(st.ops, "{}", op);
+                let _ = writeln!(st.imp, "hang: the call did not return within {} s", limit);
+                st.n += 1;
+                let _ = st.ops.flush();
+                let _ = st.imp.flush();
+                let esc: String = op.chars().filter(|c| *c != '"' && *c != '\\' && (*c as u32) >= 0x20).collect();
+                let _ = std::fs::write(
+                    format!("{}/stats.json", st.dir),
+                    format!("{{\n  \"lines\": {},\n  \"distinct\": 0,\n  \"hist\": {{}},\n  \"samples\": [],\n  \"notes\": {{\"hang\": \"{}\"}}\n}}\n", st.n, esc),
+                );
+            }
+            std::process::exit(0);
+        }
+    });
+}
+
+pub struct Out {
+    st: Arc<Mutex<Streams>>,
     dir: String,
     pub n: u64,
     pub hist: BTreeMap<String, u64>,
@@ -17,9 +71,15 @@ pub struct Out {
 impl Out {
     pub fn new(dir: &str) -> Self {
         std::fs::create_dir_all(dir).unwrap();
-        Out {
+        let st = Arc::new(Mutex::new(Streams {
             ops: BufWriter::with_capacity(1 << 20, File::create(format!("{}/ops.txt", dir)).unwrap()),
             imp: BufWriter::with_capacity(1 << 20, File::create(format!("{}/impl.txt", dir)).unwrap()),
+            n: 0,
+            dir: dir.to_string(),
+        }));
+        let _ = STREAMS.set(st.clone());
+        Out {
+            st,
             dir: dir.to_string(),
             n: 0,
             hist: BTreeMap::new(),
@@ -30,10 +90,12 @@ impl Out {
     }
     pub fn emit(&mut self, op: &str, result: &str) {
         debug_assert!(!op.contains('\n') && !result.contains('\n'));
-        self.ops.write_all(op.as_bytes()).unwrap();
-        self.ops.write_all(b"\n").unwrap();
-        self.imp.write_all(result.as_bytes()).unwrap();
-        self.imp.write_all(b"\n").unwrap();
+        let mut st = self.st.lock().unwrap();
+        st.ops.write_all(op.as_bytes()).unwrap();
+        st.ops.write_all(b"\n").unwrap();
+        st.imp.write_all(result.as_bytes()).unwrap();
+        st.imp.write_all(b"\n").unwrap();
+        st.n += 1;
         self.n += 1;
     }
     pub fn count(&mut self, key: &str) {
@@ -50,9 +112,13 @@ impl Out {
     pub fn distinct_case(&mut self, s: &str) {
         self.distinct.insert(crate::sess::fnv(s.as_bytes()));
     }
-    pub fn finish(mut self, extra: &[(&str, String)]) {
-        self.ops.flush().unwrap();
-        self.imp.flush().unwrap();
+    pub fn finish(self, extra: &[(&str, String)]) {
+        current_op(None);
+        {
+            let mut st = self.st.lock().unwrap();
+            st.ops.flush().unwrap();
+            st.imp.flush().unwrap();
+        }
         let mut f = File::create(format!("{}/stats.json", self.dir)).unwrap();
         let esc = |s: &str| -> String {
             let mut o = String::new();
@@ -82,4 +148,44 @@ impl Out {
         s += "}\n}\n";
         f.write_all(s.as_bytes()).unwrap();
     }
+}
+
+/// Run a child process with its output redirected to files under `dir`; kill it after `secs` seconds.
+/// Returns (exit code, stdout, stderr, timed out).
+pub fn run_limited(mut cmd: std::process::Command, dir: &str, secs: u64) -> (Option<i32>, String, String, bool) {
+    let _ = std::fs::create_dir_all(dir);
+    let tag = std::process::id();
+    let po = format!("{}/child-{}.out", dir, tag);
+    let pe = format!("{}/child-{}.err", dir, tag);
+    let (fo, fe) = match (File::create(&po), File::create(&pe)) {
+        (Ok(a), Ok(b)) => (a, b),
+        _ => return (None, String::new(), "cannot create output files".into(), false),
+    };
+    cmd.stdin(std::process::Stdio::null()).stdout(fo).stderr(fe);
+    let mut child = match cmd.spawn() {
+        Ok(c) => c,
+        Err(e) => return (None, String::new(), format!("spawn-failed {}", e), false),
+    };
+    let t0 = Instant::now();
+    let mut timed_out = false;
+    let code = loop {
+        match child.try_wait() {
+            Ok(Some(st)) => break st.code(),
+            Ok(None) => {
+                if t0.elapsed().as_secs() >= secs {
+                    let _ = child.kill();
+                    let _ = child.wait();
+                    timed_out = true;
+                    break None;
+                }
+                std::thread::sleep(std::time::Duration::from_millis(if t0.elapsed().as_millis() < 50 { 1 } else { 10 }));
+            }
+            Err(_) => break None,
+        }
+    };
+    let so = String::from_utf8_lossy(&std::fs::read(&po).unwrap_or_default()).to_string();
+    let se = String::from_utf8_lossy(&std::fs::read(&pe).unwrap_or_default()).to_string();
+    let _ = std::fs::remove_file(&po);
+    let _ = std::fs::remove_file(&pe);
+    (code, so, se, timed_out)
 }
